@@ -394,14 +394,18 @@ fn execute(command: &mut Command, input: Input, output: Output) -> io::Result<Ex
     // forever: not when the child doesn't open the pipe (e.g. wrong arguments given by the user),
     // and not when it replaces the pipe with another file instead of writing to it.
     // Opening a pipe for both reading and writing doesn't block.
-    let pipe_keeper = match output.pipe_path() {
-        Some(output_pipe) => Some(
-            OpenOptions::new()
+    // The reading end is opened right away, while the write end kept here guarantees that opening
+    // doesn't block. Later the child may have exited and the write end may be closed already.
+    let (pipe_keeper, pipe_reader) = match output.pipe_path() {
+        Some(output_pipe) => {
+            let keeper = OpenOptions::new()
                 .read(true)
                 .write(true)
-                .open(output_pipe)?,
-        ),
-        None => None,
+                .open(&output_pipe)?;
+            let reader = File::open(&output_pipe)?;
+            (Some(keeper), Some(reader))
+        }
+        None => (None, None),
     };
     let child = Arc::new(Mutex::new(command.spawn()?));
 
@@ -436,7 +440,7 @@ fn execute(command: &mut Command, input: Input, output: Output) -> io::Result<Ex
 
     let child_out: Box<dyn Read> = match &output {
         Output::StdOut => Box::new(child_out.unwrap()),
-        Output::Named(output) => Box::new(File::open(output)?),
+        Output::Named(_) => Box::new(pipe_reader.unwrap()),
         Output::InPlace(output) => {
             child.lock().unwrap().wait()?;
             Box::new(File::open(output)?)
